@@ -239,7 +239,7 @@ def _lookup(witness, field):
 
 
 def predicate_holds(pred, witness):
-    """pred: {field: {op: value}}; ops eq, in, contains, contains_any, startswith,
+    """pred: {field: {op: value}}; ops eq, in, contains, contains_any, subset_of, startswith,
     regex, not_contains.  All clauses must hold.  A missing field fails."""
     import re
     for field, clause in (pred or {}).items():
@@ -260,6 +260,8 @@ def predicate_holds(pred, witness):
             elif op == 'only_chars_from':
                 # every "special" char of val is in arg
                 ok = all(c in arg for c in val)
+            elif op == 'subset_of':
+                ok = isinstance(val, (list, tuple)) and all(v in arg for v in val)
             elif op == 'startswith':
                 ok = isinstance(val, str) and val.startswith(arg)
             elif op == 'regex':
